@@ -62,6 +62,17 @@ def run_harness_lines(cmd, inp, out, items, timeout=90):
     return obs_all, crashes
 
 
+def shrink(x, maxlist=24):
+    """copy of a JSON value with long lists abbreviated (for replay files)"""
+    if isinstance(x, dict):
+        return {k: shrink(v, maxlist) for k, v in x.items()}
+    if isinstance(x, list):
+        if len(x) > maxlist:
+            return [shrink(v, maxlist) for v in x[:8]] + ["... %d items ..." % (len(x) - 16)] + [shrink(v, maxlist) for v in x[-8:]]
+        return [shrink(v, maxlist) for v in x]
+    return x
+
+
 def validate(v, pid, wd, name, obs, items_desc="inputs"):
     """TLC trace validation of decode / roundtrip observations; returns number of lines validated"""
     path = os.path.join(wd, name + ".trace.ndjson")
@@ -82,9 +93,15 @@ def validate(v, pid, wd, name, obs, items_desc="inputs"):
             owner = owner.strip().strip('"')
             o = part[idx - 1]
             if owner == pid:
-                small = {k: (o[k] if len(json.dumps(o[k])) < 4000 else "(%d octets)" % len(o[k])) for k in o if k in ("bytes", "res", "msg")}
+                hexs = None
+                if "bytes" in o:
+                    hexs = bytes(o["bytes"]).hex()
+                elif o.get("enc", {}).get("ok"):
+                    hexs = bytes(o["enc"]["bytes"]).hex()
                 v.violation("%s: real code disagrees with the wire specification (%s event)" % (pid, o["ev"]),
-                            {"observation": small, "hex": bytes(o["bytes"]).hex()[:20000] if "bytes" in o else None,
+                            {"observation": shrink({k: o[k] for k in o if k != "bytes"}),
+                             "octets_hex": hexs if hexs is None or len(hexs) < 6000 else hexs[:3000] + "..." + hexs[-3000:],
+                             "octets_len": None if hexs is None else len(hexs) // 2,
                              "how": "vh wire-decode / wire-roundtrip, then TLC WireTrace"})
             else:
                 v.notes["other_property_rejections"] = v.notes.get("other_property_rejections", 0) + 1
